@@ -19,6 +19,7 @@ func runC13(c *Ctx) {
 	c.Rule("C13-R2", "all slice results consumed; cross-slice merge; slice error fails the query; slice cache key complete; ends expanded", 11)
 	c.Rule("C13-R3", "sort order keys on series identity and start", 2)
 	defer c13DecodeTargetReset(c)
+	defer c13CancellationMarker(c)
 	rq := c.MustFunc("C13-R1", "internal/promapi.Prometheus.RangeQuery")
 	if rq == nil {
 		return
@@ -438,4 +439,116 @@ func c13DecodeTargetReset(c *Ctx) {
 			"the map field "+f.Name()+" of the shared decode target is not replaced inside the per-series callback: the decoder adds keys in place, so labels of an earlier series stay on later ones; a series then has different label sets in different slices and is not merged across the slice boundary")
 	}
 	c.Check(n >= 1, "C13-R2", "streamSampleStream:map fields of the decode target enumerated", fi.Decl.Pos(), itoa(n), "no map-typed field found in the decode target")
+}
+
+// c13CancellationMarker: RangeQuery drops slice results whose error is
+// context.Canceled (they only follow the failure of a sibling slice, whose
+// error is the one reported). That is sound only while nothing but a cancelled
+// context produces that error: in internal/promapi context.Canceled is only
+// ever tested for (second argument of errors.Is) or rendered (.Error()), never
+// returned, stored or wrapped; and processJob returns what Run() produced — the
+// result variable itself, a cached result, or the ErrUnsupported sentinel.
+func c13CancellationMarker(c *Ctx) {
+	p := c.P
+	prom := p.Pkg("internal/promapi")
+	if prom == nil {
+		return
+	}
+	info := prom.TypesInfo
+	n := 0
+	for _, f := range prom.Syntax {
+		if p.IsTestFile(f.Pos()) {
+			continue
+		}
+		pm := parentMap(f)
+		ast.Inspect(f, func(nd ast.Node) bool {
+			sel, ok := nd.(*ast.SelectorExpr)
+			if !ok {
+				return true
+			}
+			v, isVar := info.Uses[sel.Sel].(*types.Var)
+			if !isVar || v.Pkg() == nil || v.Pkg().Path() != "context" || v.Name() != "Canceled" {
+				return true
+			}
+			n++
+			ok = false
+			var parent ast.Node = pm[sel]
+			for {
+				if pe, isP := parent.(*ast.ParenExpr); isP {
+					parent = pm[pe]
+					continue
+				}
+				break
+			}
+			switch x := parent.(type) {
+			case *ast.CallExpr:
+				if fn := Callee(info, x); fn != nil && fn.Pkg() != nil && fn.Pkg().Path() == "errors" && fn.Name() == "Is" && len(x.Args) == 2 && ast.Unparen(x.Args[1]) == ast.Expr(sel) {
+					ok = true
+				}
+			case *ast.SelectorExpr:
+				ok = x.Sel.Name == "Error"
+			}
+			c.Check(ok, "C13-R2", "context.Canceled is only tested for, never produced ("+p.Pos(sel.Pos())[:strings.LastIndex(p.Pos(sel.Pos()), ":")]+")", sel.Pos(), "errors.Is target / rendered", "context.Canceled is stored, returned or wrapped here: RangeQuery silently drops slice results carrying that error (they normally follow a sibling slice's failure), so a slice that failed for another reason but is relabelled as cancelled leaves a slice-shaped hole and no error")
+			return true
+		})
+	}
+	c.Check(n >= 3, "C13-R2", "uses of context.Canceled in internal/promapi enumerated", token.NoPos, itoa(n), "fewer uses of context.Canceled than confirmed ("+itoa(n)+")")
+
+	pj := c.MustFunc("C13-R2", "internal/promapi.processJob")
+	if pj == nil {
+		return
+	}
+	var resultObj types.Object
+	ast.Inspect(pj.Decl.Body, func(nd ast.Node) bool {
+		if as, ok := nd.(*ast.AssignStmt); ok && len(as.Rhs) == 1 && len(as.Lhs) == 1 {
+			if call, isCall := as.Rhs[0].(*ast.CallExpr); isCall {
+				if fn := Callee(info, call); fn != nil && fn.Name() == "Run" && strings.HasSuffix(funcQName(fn), "querier.Run") {
+					resultObj = objOf(info, as.Lhs[0])
+				}
+			}
+		}
+		return true
+	})
+	if resultObj == nil {
+		c.Undecided("C13-R2", "processJob:Run result", pj.Decl.Pos(), "no `x := job.query.Run()`")
+		return
+	}
+	bad := ""
+	inspectNoLit(pj.Decl.Body, func(nd ast.Node) bool {
+		switch x := nd.(type) {
+		case *ast.AssignStmt:
+			for _, l := range x.Lhs {
+				if sel, ok := ast.Unparen(l).(*ast.SelectorExpr); ok && objOf(info, sel.X) == resultObj && (sel.Sel.Name == "err" || sel.Sel.Name == "value") {
+					bad = "assigns " + roleStr(info, l) + " at " + p.Pos(x.Pos())
+				}
+				if x.Tok != token.DEFINE && objOf(info, l) == resultObj {
+					if _, isCall := x.Rhs[0].(*ast.CallExpr); !isCall {
+						bad = "replaces the Run() result at " + p.Pos(x.Pos())
+					}
+				}
+			}
+		case *ast.ReturnStmt:
+			if len(x.Results) != 1 {
+				return true
+			}
+			r := ast.Unparen(x.Results[0])
+			if objOf(info, r) == resultObj {
+				return true
+			}
+			if _, isTA := r.(*ast.TypeAssertExpr); isTA {
+				return true // cached result
+			}
+			if cl, isLit := r.(*ast.CompositeLit); isLit {
+				ev := litField(cl, "err")
+				if ev != nil && litField(cl, "value") == nil {
+					if v, isVar := info.Uses[identOf(ev)].(*types.Var); isVar && v.Pkg() == prom.Types && v.Parent() == prom.Types.Scope() && v.Name() == "ErrUnsupported" {
+						return true
+					}
+				}
+			}
+			bad = "returns `" + roleStr(info, r) + "` at " + p.Pos(x.Pos())
+		}
+		return true
+	})
+	c.Check(bad == "", "C13-R2", "processJob:hands back what Run() produced", pj.Decl.Pos(), "result, cached result or ErrUnsupported", "processJob "+bad+": the error (or value) a slice query produced is replaced on its way to the fan-in, so RangeQuery's decision which slice errors fail the query is taken on a different error")
 }
